@@ -53,7 +53,7 @@ DIMS = [
     ("top_k", [64, 1, 2, 3]),
     ("pair_cap", [2048, 0, 1, 2]),
     ("threshold", [0.2, 0.5]),
-    ("attach", [0.5, 1.0, -0.5]),
+    ("attach", [0.5, 1.0, -0.5, 0.125]),   # 0.125 lies below the positive clamp_min 0.25 of the 4th clamp interval
 ]
 OBSERVE_DIMS = {"mode", "alpha", "clamps", "top_k", "pair_cap", "threshold"}
 DIM_DEFAULT = {k: v[0] for k, v in DIMS}
@@ -324,7 +324,8 @@ def check_tick(c: Cfg, pre, post, dt, metrics, exempt, out):
             w2 = wt(qe[k])
             if w2 != w:
                 n_decayed += 1
-            if abs(w2) > abs(w) + 1e-12 and (pre_ok or not c.inb(w2)):
+            if abs(w2) > abs(w) + 1e-12:   # "a tick never increases a weight's magnitude" - also not by clamping a
+                # promotion-written weight that lies between 0 and a positive clamp_min up to the bound
                 out.append(("tick:magnitude-increased", "tick(%d) H=%s took %s from %r to %r" % (dt, c.H, k, w, w2)))
             if pre_ok and not c.inb(w2):
                 if c.lo > 0 and w2 < c.lo:
